@@ -623,6 +623,7 @@ def run(scenario, world):
             pol = {}
             if op.get('starve') is not None:
                 pol['starve'] = op['starve']
+            world.magic_fired = set()
             try:
                 outs, k = mp_stub.run(world, op['sched'], fn, policy=pol)
             except mp_stub.Deadlock:
@@ -655,6 +656,9 @@ def run(scenario, world):
                 magic = set(float(v) for v in op.get('magic', []))
                 individual = kind == 'logpost' or (
                     kind == 'ctrl_post' and not main.recipes[h].get('pop'))
+                # (only where the value reached the solver at all: with
+                # every mechanistic parameter fixed it does not)
+                magic &= world.magic_fired
                 hit = [i for i, xx in enumerate(xs)
                        if magic and individual and float(xx[0]) in magic]
                 for b, out in enumerate(outs):
@@ -998,6 +1002,20 @@ def generate(rng, index, tier):
             dos = op
     fix_on = ('ll' in handles and 'lp' not in handles
               and rng.random() < 0.7)
+    if fix_on and rng.random() < 0.4:
+        # a mechanistic parameter fixed, sensitivities, ANY further fix
+        # call, sensitivities again (the switch the first evaluation leaves
+        # on must not change what the refresh after the second fix does)
+        ops.append({'op': 'fix_ll', 'on': 'll', 'set': [
+            [rng.randrange(n_mech), round(rng.uniform(0.3, 1.5), 3)]]})
+        ops.append({'op': 'eval', 'on': 'll', 'q': 's1',
+                    'point': rng.randint(0, 2), 'variant': 'array'})
+        ops.append({'op': 'fix_ll', 'on': 'll', 'set': [
+            [n_mech + rng.randint(0, 3), rng.choice(
+                [None, round(rng.uniform(0.3, 1.5), 3)])]]})
+        ops.append({'op': 'eval', 'on': 'll', 'q': rng.choice(
+            ['s1', 's1', 'call', 'pw']), 'point': rng.randint(0, 2),
+            'variant': 'array'})
     for _ in range(n_ops):
         r = rng.random()
         if r > 0.85 and fix_on:
